@@ -60,8 +60,6 @@ use fuel_tx::{
         BytecodeRoot as _,
         BytecodeWitnessIndex as _,
         Inputs as _,
-        Outputs as _,
-        Policies as _,
         ProofSet as _,
         ReceiptsRoot as _,
         Salt as _,
@@ -72,7 +70,6 @@ use fuel_tx::{
         SubsectionIndex as _,
         SubsectionsNumber as _,
         UpgradePurpose as _,
-        Witnesses as _,
     },
     policies::{
         Policies,
@@ -1093,7 +1090,6 @@ trait Runner: Send + Sync {
     /// The transaction the VM holds.
     fn tx(&self) -> Transaction;
     fn tx_offset(&self) -> usize;
-    fn fp(&self) -> u64;
 }
 
 struct Holder<Tx> {
@@ -1130,10 +1126,6 @@ where
 
     fn tx_offset(&self) -> usize {
         self.vm.tx_offset()
-    }
-
-    fn fp(&self) -> u64 {
-        self.vm.registers()[RegId::FP.to_u8() as usize]
     }
 }
 
